@@ -15,7 +15,10 @@ META = {
             "selected entries are summed and compared with the reference score and with get_kemeny_score. The three "
             "public entry points (pairwise_cost_matrix, graph_of_elements, graph_of_elements_with_robust_arcs) must "
             "return the same table. Exhaustive: all datasets n<=3,m<=2 (thorough: n<=4,m<=2; n=3,m=3) under the decoder "
-            "scheme. Non-trivial: all six pair statuses occur in the dataset, B[3]!=B[4] and B[5]!=T[5].",
+            "scheme. weighted_table: the optional per-ranking weights of the three entry points (ParFront-style callers) "
+            "give the weighted sum of the per-ranking penalties, and for integer weights the table of the dataset with "
+            "each ranking repeated. Non-trivial: all six pair statuses occur in the dataset, B[3]!=B[4] and "
+            "B[5]!=T[5].",
     "exhaustive": {"quick": ["all datasets n<=3,m<=2 (decoder scheme), all pairs"],
                    "thorough": ["all datasets n<=3,m<=3; n=4,m<=2 (decoder scheme), all pairs"]},
     "assumptions": ["element ids are resolved through dataset.mapping_elem_id (its correctness is C16's subject)",
@@ -147,9 +150,63 @@ def large_cases(draw, tier):
     return {"scheme": draw(gen.any_schemes()), "dataset": ds, "cands": [draw(gen.candidates(univ))]}
 
 
+WEIGHTS = [0.25, 0.5, 1.0, 1.0, 2.0, 3.0]
+
+
+@st.composite
+def weighted_cases(draw, tier):
+    ds = draw(gen.datasets(max_n=7, max_m=5))
+    return {"scheme": draw(gen.any_schemes()), "dataset": ds,
+            "weights": [draw(st.sampled_from(WEIGHTS)) for _ in ds["rankings"]]}
+
+
+def check_weighted(case, ctx):
+    """the three public entry points take one weight per ranking: the table is then the weighted sum of the per-ranking
+    penalties (for integer weights: the table of the dataset in which ranking i is repeated weights[i] times)"""
+    from fractions import Fraction
+    rankings, scheme, ws = case["dataset"]["rankings"], case["scheme"], case["weights"]
+    d, s = lib.mk_dataset(rankings), lib.mk_scheme(scheme)
+    univ = oracle.universe(lib.normalized(rankings))
+    ids = ids_of(d, univ)
+    w = np.array(ws, dtype=float)
+    pos = lib.must(d.get_positions)
+    mat = lib.must(PairwiseBasedAlgorithm.pairwise_cost_matrix, pos, s, w)
+    _, mat_g = lib.must(PairwiseBasedAlgorithm.graph_of_elements, pos, s, w)
+    _, mat_r, _ = lib.must(PairwiseBasedAlgorithm.graph_of_elements_with_robust_arcs, pos, s, w)
+    if not (np.array_equal(mat, mat_g) and np.array_equal(mat, mat_r)):
+        raise Violation("weights %s: graph_of_elements / graph_of_elements_with_robust_arcs hand out a different table"
+                        % (ws,))
+    per = [oracle.Instance([r], scheme, elements=univ) for r in lib.normalized(rankings)]
+    seen = statuses_present(rankings, univ)
+    ctx.stats.case(case, len(seen) == 6 and len(set(ws)) > 1 and scheme[0][5] != scheme[1][5],
+                   gen.dataset_labels(case["dataset"]) + ["weights:" + ("unit" if set(ws) == {1.0} else "mixed")])
+    for x in univ:
+        for y in univ:
+            if x == y:
+                continue
+            want = [sum(Fraction(wi) * inst.triple_fr(x, y)[k] for wi, inst in zip(ws, per)) for k in range(3)]
+            for k, nm in enumerate(("before", "after", "tied")):
+                got = mat[ids[x]][ids[y]][k]
+                if not lib.approx_equal(got, want[k], 1e-9):
+                    raise Violation("weights %s: %s(%r,%r) = %r but the weighted definition gives %s" % (
+                        ws, nm, x, y, got, want[k]))
+    if all(float(wi).is_integer() for wi in ws):
+        rep = [r for r, wi in zip(rankings, ws) for _ in range(int(wi))]
+        d2 = lib.mk_dataset(rep)
+        ids2 = ids_of(d2, univ)
+        mat2 = lib.must(PairwiseBasedAlgorithm.pairwise_cost_matrix, lib.must(d2.get_positions), s)
+        for x in univ:
+            for y in univ:
+                if x != y and not np.allclose(mat[ids[x]][ids[y]], mat2[ids2[x]][ids2[y]], rtol=1e-9, atol=0):
+                    raise Violation("integer weights %s: entry (%r,%r) = %r differs from the entry %r of the dataset "
+                                    "with each ranking repeated" % (ws, x, y, list(mat[ids[x]][ids[y]]),
+                                                                    list(mat2[ids2[x]][ids2[y]])))
+
+
 def subchecks():
     return [
         HypSub("table_random", table_cases, check_table_batched, quick=10000, thorough=150000),
         HypSub("table_large", large_cases, check_table, quick=300, thorough=4000),
+        HypSub("weighted_table", weighted_cases, check_weighted, quick=3000, thorough=40000),
         EnumSub("small_scope", small_datasets, check_small),
     ]
